@@ -122,6 +122,8 @@ def run(chk, replay=None):
                             "scope identifiers in the RFC 1035 2.3.1 preferred syntax (letters, digits, hyphen), total name <= 255 octets",
                             "packets are handed to the library with header counts and RDLENGTH equal to the slice lengths",
                             "whether Unmarshal reads RFC 1002 images written by others is beyond the statement (drift)"]
+        # ---- the same entry points called by 8 goroutines at once (race-detector build): results as when called alone
+        vlib.parallel_callers(chk, "nbns")
     finally:
         shutil.rmtree(d, ignore_errors=True)
 
